@@ -47,7 +47,11 @@ UnknownKeys == {N_zz, N_transports, N_credBlob, N_minPinLength, N_credProps, N_h
 
 \* ----- base requests
 BaseSeq == <<[i |-> 1, c |-> 1, sv |-> ReqRich(1, F)], [i |-> 2, c |-> 2, sv |-> ReqFull(2, F)],
-             [i |-> 3, c |-> 10, sv |-> ReqFull(10, F)], [i |-> 4, c |-> 1, sv |-> McReqMin]>>
+             [i |-> 3, c |-> 10, sv |-> ReqFull(10, F)], [i |-> 4, c |-> 1, sv |-> McReqMin],
+             \* parameter entries that will be filtered out (unknown type / algorithm) followed by more
+             [i |-> 5, c |-> 1, sv |-> [McReqMin EXCEPT !.pubKeyCredParams =
+                                           <<[alg |-> ALG_ES256, type |-> <<111, 116, 104, 101, 114>>], ParamOf(-257), ParamOf(ALG_EdDSA)>>,
+                                         !.options = <<AuthOptsFull>>]]>>
 Bases == {BaseSeq[i] : i \in 1..Len(BaseSeq)}
 BaseTy(b)   == T_Indexed(CommandTable[b.c].schema)
 BaseTree(b) == ToTree(BaseTy(b), b.sv, F, TRUE)
@@ -68,7 +72,7 @@ ValueSweep ==
 \* every position and every key, a few values
 PositionSweep ==
     UNION {UNION {{UCase(b, m, pos, k, u, "unknown-position") : u \in FewVals, k \in UnknownKeys, pos \in 0..Len(At(BaseTree(b), m.p).m)}
-                  : m \in ExtMaps(b)} : b \in (IF Deep THEN Bases ELSE {BaseSeq[1], BaseSeq[2]})}
+                  : m \in ExtMaps(b)} : b \in (IF Deep THEN Bases ELSE {BaseSeq[1], BaseSeq[2], BaseSeq[5]})}
 \* several unknown members at once
 Multi ==
     UNION {{[op |-> "decode2", tag |-> "unknown-multi", c |-> b.c, sv |-> << >>, base |-> b.i, schema |-> m.s,
@@ -77,6 +81,12 @@ Multi ==
             : m \in ExtMaps(b)} : b \in Bases}
 
 MC_Cases == ValueSweep \cup PositionSweep \cup Multi
+
+\* the part of this corpus that C04 replays (the skipper must not crash, whatever it is fed)
+C04_Cases ==
+    UNION {UNION {{UCase(b, m, pos, N_zz, u, "unknown-value") : u \in UnknownVals, pos \in {0, Len(At(BaseTree(b), m.p).m)}}
+                  : m \in ExtMaps(b)} : b \in {BaseSeq[4], BaseSeq[5]}}
+    \cup Multi
 
 (***************************************************************************)
 (* C06 on the model                                                        *)
